@@ -6,5 +6,5 @@ ASSUME = ["argparse: an absent option yields its default (external)", "dict.upda
 
 
 def run(tier, seed):
-    return run_components("C20", tier, seed, ["e1", finite.c20_cli_priority, finite.c20_main_named_objects, finite.c20_same_entry, finite.c20_sanitise, "e3desc"],
+    return run_components("C20", tier, seed, ["e1", finite.c20_cli_priority, finite.c20_main_named_objects, finite.c20_multi_file_run, finite.c20_same_entry, finite.c20_sanitise, "e3desc"],
                           ASSUME, ["runtime/descriptors.py"])
